@@ -3,7 +3,7 @@
 from __future__ import annotations
 
 from sa.report import Ctx
-from sa.sym import FALSE, NONE, NOT, Summary, conjuncts, show, walk
+from sa.sym import callkw, FALSE, NONE, NOT, Summary, conjuncts, show, walk
 
 OPS = "soundevent.geometry.operations"
 
@@ -82,7 +82,7 @@ class C13:
             ctx.bad("R13.1", self.file, "_compute_similarity_matrix", f"index lists {[show(x)[:14] for x in la]} / {[show(x)[:14] for x in lb]}",
                     "the adjacency is not filled symmetrically from the pair's own indices ((i, j) and (j, i), one value each): a one-directional "
                     "or misaligned entry makes the grouping depend on the input order / miss links", coo[0].lineno)
-        shape = dict(coo[0].term[3]).get("shape")
+        shape = callkw(coo[0].term).get("shape")
         n = ("call", ("builtin", "len"), (ev,), ())
         if shape == ("tuple", (n, n)):
             ctx.ok("R13.1", f"{self.file}:{coo[0].lineno} _compute_similarity_matrix", "shape = (len(events), len(events))")
@@ -101,7 +101,7 @@ class C13:
             ctx.undec("R13.3", site, "connected_components call not found")
             return
         t = cc[0].term
-        kw = dict(t[3])
+        kw = callkw(t)
         okc = t[2][:1] == (mat,) and kw.get("connection", ("const", "weak")) == ("const", "weak") and len(t[2]) == 1 \
             and set(kw) <= {"directed", "connection", "return_labels"} and kw.get("return_labels", ("const", True)) == ("const", True)
         if okc:
